@@ -94,7 +94,19 @@ CoSignedInit ==
                  <<Entry(<< >>, "s1", filer, LinkD("s1", <<GoodSig(filer), GoodSig(other)>>, Base, Base)),
                    Entry(<< >>, "s1", other, LinkFor(other, TRUE, kind, side))>>, {})
 
-MCInit == (CoInit \/ PlainInit \/ CoSignedInit) /\ VInitRest
+\* the multi-party step is not the first of the layout: a single-party step (threshold 1, or 0) comes before it
+PrecededInit ==
+  \E t0 \in {0, 1}, who \in {"k1", "k2"}, kind \in Kinds7, side \in {"mats", "prods"}, after \in BOOLEAN :
+     LET first == StepD("s0", <<"k3">>, t0, <<Simple("ALLOW", <<"*">>)>>, <<Simple("ALLOW", <<"*">>)>>)
+         multi == StepD("s1", <<"k1", "k2">>, 2, <<Simple("ALLOW", <<"*">>)>>, <<Simple("ALLOW", <<"*">>)>>)
+     IN scn = Build(LayoutD(<<GoodSig("o1")>>, 1000, <<"k1", "k2", "k3">>,
+                            IF after THEN <<multi, first>> ELSE <<first, multi>>, << >>),
+                    Own("o1"),
+                    <<Entry(<< >>, "s0", "k3", LinkD("s0", <<GoodSig("k3")>>, Base, Base)),
+                      Entry(<< >>, "s1", "k1", LinkFor("k1", who = "k1", kind, side)),
+                      Entry(<< >>, "s1", "k2", LinkFor("k2", who = "k2", kind, side))>>, {})
+
+MCInit == (CoInit \/ PlainInit \/ CoSignedInit \/ PrecededInit) /\ VInitRest
 
 
 MCSpec == MCInit /\ [][VNext]_vars
